@@ -1,114 +1,94 @@
 // Kani harnesses for src/lib.rs (child module of the crate root in the scratch copy).
 //
-// B.lib.parse_bytes: the REAL NetflowParser::parse_bytes (whatever its internal shape: recursion, loop,
-// helper functions) is run against a small deterministic *model of parse_packet_by_version that satisfies
-// that function's contract* (kani::stub -- the caller is checked against the callee's contract, not its
-// body; the body is the subject of V.lib.ppbv), and compared with the left-to-right reference fold of
-// C02/C07/C11/C14.  Bounded by buffer length N; every packet consumes >= 3 bytes.
+// K.nom.*: the TRUSTED specifications of the nom 7.1.3 primitives in contracts/verus/nom_prims.rs, re-stated as
+// assertions and proved on the real nom functions (loop-free over all inputs of the stated sizes => complete for the
+// leaf primitives; `count` is bounded to n <= 2).  Same contract text as the Verus stubs: width consumed, big-endian
+// value, `Err` iff too short, and the error is the recoverable `Err::Error` kind.
 use super::*;
-use crate::static_versions::v5;
+use nom::bytes::complete::take;
+use nom::combinator::{complete, cond, map_res};
+use nom::multi::count;
+use nom::number::complete::{be_u16, be_u32, be_u8};
+use nom::IResult;
 
-const N: usize = 8;
-
-static mut CALLS: [usize; 12] = [0; 12];   // length of the buffer handed to each ppbv call
-static mut NCALLS: usize = 0;
-
-/// toy step semantics, a function of the bytes only (so the reference can recompute it):
-///   fewer than 2 bytes                 -> Incomplete
-///   byte0 top bits 01                  -> UnallowedVersion(be16)
-///   byte0 top bits 10                  -> UnknownVersion(rest)
-///   byte0 top bits 11 or empty rest    -> Partial{version: be16, remaining: rest}
-///   otherwise                          -> Ok: consumes 2 + 1 + (rest[0] % rest.len()) bytes
-#[derive(PartialEq, Clone, Copy)]
-enum Step { Incomplete, Unallowed, Unknown, Partial, Ok(usize) }
-fn toy_step(packet: &[u8]) -> Step {
-    if packet.len() < 2 { return Step::Incomplete; }
-    let rest = &packet[2..];
-    match packet[0] >> 6 {
-        1 => Step::Unallowed,
-        2 => Step::Unknown,
-        3 => Step::Partial,
-        _ => if rest.is_empty() { Step::Partial } else { Step::Ok(2 + 1 + (rest[0] as usize % rest.len())) },
-    }
-}
-fn model_ppbv<'a>(_p: &'a mut NetflowParser, packet: &'a [u8]) -> Result<ParsedNetflow, NetflowParseError> {
-    unsafe { if NCALLS < 12 { CALLS[NCALLS] = packet.len(); } NCALLS += 1; }
-    let ver = if packet.len() >= 2 { u16::from_be_bytes([packet[0], packet[1]]) } else { 0 };
-    match toy_step(packet) {
-        Step::Incomplete => Err(NetflowParseError::Incomplete(String::new())),
-        Step::Unallowed => Err(NetflowParseError::UnallowedVersion(ver)),
-        Step::Unknown => Err(NetflowParseError::UnknownVersion(packet[2..].to_vec())),
-        Step::Partial => Err(NetflowParseError::Partial(PartialParse { version: ver, error: String::new(), remaining: packet[2..].to_vec() })),
-        Step::Ok(c) => Ok(ParsedNetflow { remaining: packet[c..].to_vec(), result: NetflowPacket::V5(v5::V5 {
-            header: v5::Header { version: 5, count: c as u16, sys_up_time: packet.len() as u32, unix_secs: 0, unix_nsecs: 0,
-                                 flow_sequence: 0, engine_type: 0, engine_id: 0, sampling_interval: 0 }, flowsets: vec![] }) }),
-    }
-}
-
-// RandomState::new() reads the OS random source (a syscall Kani does not model); hash seeds are irrelevant here
-fn model_random_state() -> std::hash::RandomState { unsafe { std::mem::transmute::<(u64, u64), std::hash::RandomState>((1, 2)) } }
-
-/// B.lib.parse_bytes
-#[kani::proof]
-#[kani::stub(std::hash::RandomState::new, model_random_state)]
-#[kani::unwind(10)]
-#[kani::stub(NetflowParser::parse_packet_by_version, model_ppbv)]
-fn b_lib_parse_bytes() {
-    let buf: [u8; N] = kani::any();
+fn any_slice<'a>(buf: &'a [u8; 9]) -> &'a [u8] {
     let n: usize = kani::any();
-    kani::assume(n <= N);
-    let input = &buf[..n];
-    let mut parser = NetflowParser {
-        v9_parser: crate::variable_versions::v9::V9Parser::default(),
-        ipfix_parser: crate::variable_versions::ipfix::IPFixParser::default(),
-        allowed_versions: HashSet::new(),
-    };
-    let out = parser.parse_bytes(input);
+    kani::assume(n <= 9);
+    &buf[..n]
+}
+fn is_recoverable<T>(r: &IResult<&[u8], T>) -> bool { matches!(r, Err(nom::Err::Error(_))) }
 
-    let mut off = 0usize;
-    let mut idx = 0usize;
-    let mut calls = 0usize;
-    while off < n {
-        let cur = &input[off..];
-        unsafe {
-            assert!(calls < NCALLS, "the next packet was not parsed (tail dropped)");
-            assert!(CALLS[calls] == cur.len(), "the step was not run on exactly the unconsumed suffix");
-        }
-        calls += 1;
-        match toy_step(cur) {
-            Step::Ok(c) => {
-                assert!(idx < out.len(), "a decoded packet is missing from the result");
-                match &out[idx] {
-                    NetflowPacket::V5(p) => assert!(p.header.count as usize == c && p.header.sys_up_time as usize == cur.len(),
-                                                    "packets out of order / wrong packet"),
-                    _ => assert!(false, "expected a packet element"),
-                }
-                idx += 1;
-                off += c;
-            }
-            Step::Unallowed => { break; }   // C12: silent stop
-            other => {
-                assert!(idx < out.len(), "missing final error element");
-                match &out[idx] {
-                    NetflowPacket::Error(e) => {
-                        assert!(e.remaining.as_slice() == cur, "error remaining is not exactly the unconsumed suffix");
-                        match (&e.error, other) {
-                            (NetflowParseError::Incomplete(_), Step::Incomplete) => {}
-                            (NetflowParseError::UnknownVersion(b), Step::Unknown) => assert!(b.as_slice() == &cur[2..]),
-                            (NetflowParseError::Partial(p), Step::Partial) => assert!(p.remaining.as_slice() == &cur[2..]),
-                            _ => assert!(false, "error kind changed on the way out"),
-                        }
-                    }
-                    _ => assert!(false, "expected an error element"),
-                }
-                idx += 1;
-                break;
-            }
-        }
+#[kani::proof]
+#[kani::unwind(6)]
+fn k_nom_be() {
+    let buf: [u8; 9] = kani::any();
+    let i = any_slice(&buf);
+    match be_u8::<_, nom::error::Error<&[u8]>>(i) {
+        Ok((rest, v)) => assert!(i.len() >= 1 && v == i[0] && rest.as_ptr() == i[1..].as_ptr() && rest.len() == i.len() - 1),
+        r @ Err(_) => assert!(i.len() < 1 && is_recoverable(&r)),
     }
-    kani::cover!(idx >= 3, "three elements");
-    assert!(idx == out.len(), "extra elements: error not last, or packets reported after the stop");
-    unsafe { assert!(NCALLS == calls, "input after the stop / after the end was parsed"); }
-    std::mem::forget(out);      // no drop glue for the (large) packet enum
-    std::mem::forget(parser);
+    match be_u16::<_, nom::error::Error<&[u8]>>(i) {
+        Ok((rest, v)) => assert!(i.len() >= 2 && v == u16::from_be_bytes([i[0], i[1]]) && rest.as_ptr() == i[2..].as_ptr() && rest.len() == i.len() - 2),
+        r @ Err(_) => assert!(i.len() < 2 && is_recoverable(&r)),
+    }
+    match be_u32::<_, nom::error::Error<&[u8]>>(i) {
+        Ok((rest, v)) => assert!(i.len() >= 4 && v == u32::from_be_bytes([i[0], i[1], i[2], i[3]]) && rest.as_ptr() == i[4..].as_ptr() && rest.len() == i.len() - 4),
+        r @ Err(_) => assert!(i.len() < 4 && is_recoverable(&r)),
+    }
+}
+
+#[kani::proof]
+#[kani::unwind(6)]
+fn k_nom_take_cond() {
+    let buf: [u8; 9] = kani::any();
+    let i = any_slice(&buf);
+    let n: u16 = kani::any();
+    match take::<_, _, nom::error::Error<&[u8]>>(n)(i) {
+        Ok((rest, taken)) => assert!(i.len() >= n as usize && taken.as_ptr() == i.as_ptr() && taken.len() == n as usize
+                                     && rest.as_ptr() == i[n as usize..].as_ptr() && rest.len() == i.len() - n as usize),
+        r @ Err(_) => assert!(i.len() < n as usize && is_recoverable(&r)),
+    }
+    let b: bool = kani::any();
+    match cond(b, be_u32::<_, nom::error::Error<&[u8]>>)(i) {
+        Ok((rest, Some(v))) => assert!(b && i.len() >= 4 && v == u32::from_be_bytes([i[0], i[1], i[2], i[3]]) && rest.len() == i.len() - 4),
+        Ok((rest, None)) => assert!(!b && rest.as_ptr() == i.as_ptr() && rest.len() == i.len()),
+        Err(_) => assert!(b && i.len() < 4),
+    }
+}
+
+/// map_res(P, F): P's remainder with F's Ok value; F's Err => recoverable Error(MapRes) at the ORIGINAL input (rule R15)
+#[kani::proof]
+#[kani::unwind(6)]
+fn k_nom_map_res_complete() {
+    let buf: [u8; 9] = kani::any();
+    let i = any_slice(&buf);
+    let f = |t: &[u8]| -> Result<u8, ()> { if t[0] & 1 == 0 { Ok(t[0]) } else { Err(()) } };
+    match map_res(take::<_, _, nom::error::Error<&[u8]>>(2u16), f)(i) {
+        Ok((rest, v)) => assert!(i.len() >= 2 && i[0] & 1 == 0 && v == i[0] && rest.len() == i.len() - 2),
+        Err(nom::Err::Error(e)) => assert!(i.len() < 2 || (i[0] & 1 == 1 && e.code == nom::error::ErrorKind::MapRes && e.input.as_ptr() == i.as_ptr())),
+        Err(_) => assert!(false, "map_res produced a non-recoverable error"),
+    }
+    // complete(): a streaming parser's Incomplete becomes a recoverable Error
+    match complete(nom::number::streaming::be_u16::<_, nom::error::Error<&[u8]>>)(i) {
+        Ok((rest, v)) => assert!(i.len() >= 2 && v == u16::from_be_bytes([i[0], i[1]]) && rest.len() == i.len() - 2),
+        r @ Err(_) => assert!(i.len() < 2 && is_recoverable(&r)),
+    }
+}
+
+/// count(f, n) for n <= 2 (bounded): n successes in sequence, or the first failure (same error kind)
+#[kani::proof]
+#[kani::unwind(6)]
+fn b_nom_count() {
+    let buf: [u8; 9] = kani::any();
+    let i = any_slice(&buf);
+    let n: usize = kani::any();
+    kani::assume(n <= 2);
+    match count(be_u16::<_, nom::error::Error<&[u8]>>, n)(i) {
+        Ok((rest, v)) => {
+            assert!(v.len() == n && i.len() >= 2 * n && rest.len() == i.len() - 2 * n);
+            if n >= 1 { assert!(v[0] == u16::from_be_bytes([i[0], i[1]])); }
+            if n >= 2 { assert!(v[1] == u16::from_be_bytes([i[2], i[3]])); }
+        }
+        r @ Err(_) => assert!(i.len() < 2 * n && is_recoverable(&r)),
+    }
 }
